@@ -10,7 +10,7 @@ import stitch_streams as SS
 MODULE = "Props.C07"
 THEOREMS = ["C07_plan_covers_requested_columns", "C13_solve_wellFormed", "C13_solveWithFeatures_shape", "C12_columns_union", "C12_doStitch_real_rows",
             "C11_null_range", "C11_string_result", "C10_microdata_rows", "C07_buildTable_columns", "wellFormed_columns",
-            "C07_sampleDefault_schema"]
+            "C07_sampleDefault_schema", "C07_cell_fits", "colFits_of_fitted", "C07_synthesize_single_domains"]
 PARTIAL = ["totality (that sample() completes) is not a Lean theorem: the composed model `buildTable` reproduces sample() value for value (S-sampleN) "
            "and the schema clause is proved of it (C07_buildTable_columns: the assembled table has exactly the plan's columns; with "
            "C13_solve_wellFormed / C07_plan_covers_requested_columns: every input column once); cells: decoded per kind, nulls only from the "
